@@ -336,13 +336,15 @@ func respCanon(rcode int, herr error, w *recWriter, req *dns.Msg) string {
 		sectionCanon(m.Answer, false), sectionCanon(m.Ns, false), sectionCanon(m.Extra, true), optCanon(m))
 }
 
-// ask sends one query to one handler.
+// ask sends one query to one handler. The writer presents a TCP peer: the size-dependent trimming
+// of the additional section for UDP clients without EDNS (coredns Scrub / miekg Truncate - library
+// code, explored over real sockets in C20) is not part of what these ops compare.
 func ask(h *dnsserver.FBDNSDB, q *query) (out string) {
 	req := q.wireQuery()
 	if req == nil {
 		return "invalid-query"
 	}
-	w := &recWriter{remote: q.resolver}
+	w := &recWriter{remote: q.resolver, tcp: true}
 	ctx := context.Background()
 	if q.maxAns > 0 {
 		ctx = dnsserver.WithMaxAnswer(ctx, q.maxAns)
